@@ -594,6 +594,14 @@ fn c01(tier: &str) -> Vec<String> {
         v.push(format!("fmt01:row={}:form=try:tier=quick:dirty=1", row));
         // every line length up to ~1.3 KiB, then around the powers of two up to 128 KiB
         v.push(format!("fmtlen:row={}:part=key:max={}", row, if tier == "thorough" { 2200 } else { 1100 }));
+        // clients with default tags / container (every list of up to two default tags, among them a
+        // single empty bare tag): the sections still appear exactly when supplied
+        v.push(format!("fmt04:row={}:tier={}", row, tier));
+    }
+    // histories of calls on one client with the sink refusing some of them: what a call hands to
+    // the sink does not depend on how earlier calls ended (scratch state kept between calls)
+    for i in 0..30 {
+        v.push(format!("calls:part=seq:tier={}:chunk={}:of=30", tier, i));
     }
     for row in [0usize, 9, 15, 22] {
         v.push(format!("fmtlen:row={}:part=tags", row));
